@@ -265,3 +265,23 @@ def split_statements(src, m, lo, hi):
         out.append((start, j))
         i = j
     return out
+
+
+def slice_let(src, it, name, nth=0, count=None):
+    """Initialiser expression text of the nth `let <name> = <expr>;` inside item `it` (whitespace
+    collapsed).  Raises ScanError when the anchor is lost."""
+    body = src[it.body_open + 1:it.body_close]
+    mbody = mask(body)
+    mms = list(re.finditer(r"\blet\s+%s\s*(?::[^=;]+)?=\s*" % re.escape(name), mbody))
+    if count is not None and len(mms) != count:
+        raise ScanError("expected %d `let %s`, found %d" % (count, name, len(mms)))
+    if len(mms) <= nth:
+        raise ScanError("`let %s` #%d not found" % (name, nth))
+    mm = mms[nth]
+    j = mm.end()
+    depth = 0
+    while j < len(mbody) and not (mbody[j] == ";" and depth == 0):
+        depth += mbody[j] in "([{"
+        depth -= mbody[j] in ")]}"
+        j += 1
+    return re.sub(r"\s+", " ", body[mm.end():j].strip()).replace(" .", ".")
